@@ -279,6 +279,12 @@ def model_save_quantized_weights(model, filename=None, custom_objects={}):
         qs = layer.get_quantizers()
         ws = layer.get_weights()
 
+      if layer.__class__.__name__ == "QBatchNormalization":
+        # gamma / beta only exist when scale / center are set: keep the
+        # quantizers (gamma, beta, mean, variance) aligned with the weights.
+        qs = [q for q, used in zip(
+            qs, [layer.scale, layer.center, True, True]) if used]
+
       has_sign = False
       has_scale = False
       enable_bn_fusing = False
